@@ -175,6 +175,20 @@ META["C16"] = {
     "watchdog_s": {"quick": 400, "thorough": 3600},
 }
 
+META["C19"] = {
+    "title": "Scheduled tasks run at most once, never early, and stay cancelled",
+    "rule": "cases = (set of 1-4 tasks scheduled directly through the public Scheduler::schedule on the order-choosing executor: OnceTask, OnceTask returning a subscription (SubscribeReturn), FutureTask over a scripted future pending 0-2 polls, RepeatTask with period 1|5 ms declining after 1-4 runs; delay in {none, 0, 1, 5} ms; for each handle a cancellation step (or none); local or thread-safe scheduler form; fifo|any task order; prompt|late schedule; seed). is_closed() of every handle is sampled before every step. Non-trivial: a cancellation fell while its task was still pending (scheduled, not finished); distinct = hash(case).",
+    "assumptions": COMMON_ASSUME + [
+        "bodies are harness fn pointers that log start/end stamps; 'never early' is judged on virtual time: a one-shot body not before schedule + delay, a repeating body not before its delay and later runs at least one period apart",
+        "single-threaded here: 'the body is not still running when unsubscribe() returns' is checked by the baton scenarios (worker thread vs cancelling thread) reported under thread_* counters",
+    ],
+    "technique": "runtime monitoring: stamped task bodies and handle samples on the real Scheduler/TaskHandle code, run order and timer order chosen by the explorer through the VerifScheduler hook, checked against a task model",
+    "level_text": "Exploration over sampled task sets, cancellation points and run orders.",
+    "level_note": "Trusted: arena executor, virtual clock; the library's remote_handle/Remote::poll/TaskHandle run unchanged.",
+    "design_ref": "DESIGN.md §5 C19",
+    "require": {"quick": {"cancellations_while_pending": 20000, "task_kinds_covered": 4}, "thorough": {"task_kinds_covered": 4}},
+}
+
 
 # properties without a check yet are listed here with the reason; the list shrinks as checks land
 ALL_IDS = ['C01', 'C02', 'C03', 'C04', 'C05', 'C06', 'C07', 'C08', 'C09', 'C10', 'C11', 'C12', 'C13', 'C14', 'C15', 'C16', 'C17', 'C18', 'C19', 'C20']
